@@ -481,4 +481,385 @@ theorem block_roundtrip (num m szx : Nat) (hn : num < 2 ^ 20) (hm : m ≤ 1) (hs
         refine ⟨by omega, by omega, by omega, by omega, by omega, by rw [hszx]⟩
 
 
+theorem memcpyAt_length (buf : Bytes) (off : Nat) (data : Bytes) (h : off + data.length ≤ buf.length) :
+    (memcpyAt buf off data).length = buf.length := by
+  simp [memcpyAt]; omega
+
+theorem memcpyAt_get (buf : Bytes) (off : Nat) (data : Bytes) (h : off + data.length ≤ buf.length) (i : Nat) :
+    (memcpyAt buf off data)[i]? = if off ≤ i ∧ i < off + data.length then data[i - off]? else buf[i]? := by
+  unfold memcpyAt
+  rw [List.append_assoc, List.getElem?_append]
+  have hl : (buf.take off).length = off := by simp; omega
+  rw [hl]
+  by_cases h1 : i < off
+  · have : ¬ (off ≤ i ∧ i < off + data.length) := by omega
+    rw [if_pos h1, if_neg this, List.getElem?_take, if_pos h1]
+  · rw [if_neg h1, List.getElem?_append]
+    by_cases h2 : i - off < data.length
+    · have : off ≤ i ∧ i < off + data.length := by omega
+      rw [if_pos h2, if_pos this]
+    · have : ¬ (off ≤ i ∧ i < off + data.length) := by omega
+      rw [if_neg h2, if_neg this, List.getElem?_drop]
+      congr 1
+      omega
+
+theorem resizeBin_length (junk : UInt8) (buf : Bytes) (n : Nat) : (resizeBin junk buf n).length = n := by
+  simp [resizeBin]; omega
+
+theorem resizeBin_get (junk : UInt8) (buf : Bytes) (n i : Nat) (h : i < buf.length) (hn : i < n) :
+    (resizeBin junk buf n)[i]? = buf[i]? := by
+  unfold resizeBin
+  rw [List.getElem?_append]
+  have : i < (buf.take n).length := by simp; omega
+  rw [if_pos this, List.getElem?_take, if_pos hn]
+
+theorem slice_get (body : Bytes) (szx k i : Nat) (h1 : k * chunkSize szx ≤ i)
+    (h2 : i < k * chunkSize szx + (slice body szx k).length) :
+    (slice body szx k)[i - k * chunkSize szx]? = body[i]? := by
+  have hl := slice_length body szx k
+  unfold slice at *
+  rw [List.getElem?_take, List.getElem?_drop]
+  have : i - k * chunkSize szx < chunkSize szx := by omega
+  rw [if_pos this]
+  congr 1
+  omega
+
+/-- what the receiver does with an accepted block: `total_len = max(total_len, offset + length)`, then
+`coap_block_build_body(body_data, length, data, offset, total_len)` (see `srcvStep`) -/
+def storeStep (junk : UInt8) (body : Bytes) (szx : Nat) (st : Nat × Option Bytes) (k : Nat) : Nat × Option Bytes :=
+  let data := slice body szx k
+  let off := k * chunkSize szx
+  let tl := if st.1 < off + data.length then off + data.length else st.1
+  (tl, buildBody junk st.2 data off tl)
+
+/-- end offset of block `k` -/
+def blockEnd (body : Bytes) (szx k : Nat) : Nat := k * chunkSize szx + (slice body szx k).length
+
+def StoreInv (body : Bytes) (szx : Nat) (K : List Nat) (st : Nat × Option Bytes) : Prop :=
+  st.1 ≤ body.length ∧ (∀ k, k ∈ K → blockEnd body szx k ≤ st.1) ∧
+  match st.2 with
+  | none => K = []
+  | some b => b.length = st.1 ∧
+      ∀ k, k ∈ K → ∀ i, k * chunkSize szx ≤ i → i < blockEnd body szx k → b[i]? = body[i]?
+
+theorem blockEnd_le (body : Bytes) (szx k : Nat) (hk : k < nBlocks body.length szx) :
+    k * chunkSize szx < blockEnd body szx k ∧ blockEnd body szx k ≤ body.length := by
+  have h := (lt_nBlocks_iff body.length szx k).mp hk
+  have hl := slice_length body szx k
+  have hc := chunk_pos szx
+  unfold blockEnd
+  omega
+
+theorem storeStep_inv (junk : UInt8) (body : Bytes) (szx : Nat) (K : List Nat) (st : Nat × Option Bytes) (k : Nat)
+    (hk : k < nBlocks body.length szx) (hinv : StoreInv body szx K st) :
+    StoreInv body szx (k :: K) (storeStep junk body szx st k) := by
+  obtain ⟨tl, buf⟩ := st
+  obtain ⟨i1, i2, i3⟩ := hinv
+  obtain ⟨e1, e2⟩ := blockEnd_le body szx k hk
+  unfold storeStep
+  simp only
+  have hbe : k * chunkSize szx + (slice body szx k).length = blockEnd body szx k := rfl
+  rw [hbe]
+  generalize htl : (if tl < blockEnd body szx k then blockEnd body szx k else tl) = tl'
+  have htl1 : tl ≤ tl' ∧ blockEnd body szx k ≤ tl' ∧ tl' ≤ body.length ∧ (tl' = tl ∨ tl' = blockEnd body szx k) := by
+    simp only at i1
+    by_cases hh : tl < blockEnd body szx k
+    · rw [if_pos hh] at htl; omega
+    · rw [if_neg hh] at htl; omega
+  obtain ⟨t1, t2, t3, t4⟩ := htl1
+  -- the buffer the memcpy goes into, with its two properties
+  have key : ∃ b0 : Bytes, buildBody junk buf (slice body szx k) (k * chunkSize szx) tl' =
+      some (memcpyAt b0 (k * chunkSize szx) (slice body szx k)) ∧ b0.length = tl' ∧
+      (∀ b, buf = some b → ∀ i, i < b.length → b0[i]? = b[i]?) := by
+    unfold buildBody
+    cases buf with
+    | none =>
+      have hne : tl' ≠ 0 := by omega
+      simp only [hne, ne_eq, not_false_eq_true, if_true]
+      refine ⟨List.replicate tl' junk, ?_, by simp, by intro b hb; cases hb⟩
+      have : k * chunkSize szx + (slice body szx k).length ≤ tl' ∧ (List.replicate tl' junk).length ≥ tl' := by
+        simp; omega
+      rw [if_pos this]
+    | some b =>
+      simp only at i3
+      obtain ⟨l1, _⟩ := i3
+      simp only
+      by_cases hc : k * chunkSize szx + (slice body szx k).length ≤ tl' ∧ b.length ≥ tl'
+      · rw [if_pos hc]
+        exact ⟨b, rfl, by omega, by intro b' hb' i hi; cases hb'; rfl⟩
+      · rw [if_neg hc]
+        have hgrow : tl' = blockEnd body szx k := by omega
+        refine ⟨resizeBin junk b (k * chunkSize szx + (slice body szx k).length), rfl, ?_, ?_⟩
+        · rw [resizeBin_length]; omega
+        · intro b' hb' i hi
+          cases hb'
+          exact resizeBin_get junk b _ i hi (by omega)
+  obtain ⟨b0, hb0, hlen0, hold⟩ := key
+  rw [hb0]
+  have hfit : k * chunkSize szx + (slice body szx k).length ≤ b0.length := by omega
+  refine ⟨t3, ?_, ?_⟩
+  · intro k' hk'
+    simp only [List.mem_cons] at hk'
+    rcases hk' with rfl | hk'
+    · exact t2
+    · have := i2 k' hk'
+      simp only at this
+      omega
+  · simp only
+    refine ⟨by rw [memcpyAt_length _ _ _ hfit]; exact hlen0, ?_⟩
+    intro k' hk' i hi1 hi2
+    rw [memcpyAt_get _ _ _ hfit]
+    by_cases hw : k * chunkSize szx ≤ i ∧ i < k * chunkSize szx + (slice body szx k).length
+    · rw [if_pos hw]
+      exact slice_get body szx k i hw.1 hw.2
+    · rw [if_neg hw]
+      simp only [List.mem_cons] at hk'
+      rcases hk' with rfl | hk'
+      · exact (hw ⟨hi1, hi2⟩).elim
+      · cases buf with
+        | none => simp only at i3; subst i3; cases hk'
+        | some b =>
+          simp only at i3
+          obtain ⟨l1, l2⟩ := i3
+          have hle := i2 k' hk'
+          simp only at hle
+          rw [hold b rfl i (by omega)]
+          exact l2 k' hk' i hi1 hi2
+
+
+theorem store_fold_inv (junk : UInt8) (body : Bytes) (szx : Nat) : ∀ (ks K : List Nat) (st : Nat × Option Bytes),
+    StoreInv body szx K st → (∀ k, k ∈ ks → k < nBlocks body.length szx) →
+    StoreInv body szx (ks.reverse ++ K) (ks.foldl (storeStep junk body szx) st)
+  | [], K, st, h, _ => by simpa using h
+  | k :: ks, K, st, h, hks => by
+    rw [List.foldl_cons]
+    have h1 := storeStep_inv junk body szx K st k (hks k (by simp)) h
+    have h2 := store_fold_inv junk body szx ks (k :: K) _ h1 (fun k' hk' => hks k' (by simp [hk']))
+    simpa using h2
+
+theorem store_all (junk : UInt8) (body : Bytes) (szx : Nat) (ks : List Nat) (t0 : Nat)
+    (hne : body ≠ []) (ht0 : t0 ≤ body.length)
+    (hks : ∀ k, k ∈ ks → k < nBlocks body.length szx)
+    (hall : ∀ j, j < nBlocks body.length szx → j ∈ ks) :
+    ks.foldl (storeStep junk body szx) (t0, none) = (body.length, some body) := by
+  have hinv0 : StoreInv body szx [] (t0, none) := by
+    refine ⟨ht0, ?_, rfl⟩
+    intro k hk; cases hk
+  have hinv := store_fold_inv junk body szx ks [] (t0, none) hinv0 hks
+  generalize ks.foldl (storeStep junk body szx) (t0, none) = st at hinv
+  obtain ⟨tl, buf⟩ := st
+  obtain ⟨i1, i2, i3⟩ := hinv
+  simp only at i1 i2 i3
+  have hlen : 0 < body.length := by
+    cases body with
+    | nil => exact (hne rfl).elim
+    | cons a t => simp
+  have hc := chunk_pos szx
+  have hmem : ∀ j, j < nBlocks body.length szx → j ∈ ks.reverse ++ [] := by
+    intro j hj; simpa using hall j hj
+  have hnb : 0 < nBlocks body.length szx := (lt_nBlocks_iff body.length szx 0).mpr (by omega)
+  -- the last block ends at the end of the body
+  have hlast : blockEnd body szx (nBlocks body.length szx - 1) = body.length := by
+    have hk : nBlocks body.length szx - 1 < nBlocks body.length szx := by omega
+    have h1 := (lt_nBlocks_iff body.length szx _).mp hk
+    have h2 := nBlocks_mul_ge body.length szx
+    have h3 := slice_length body szx (nBlocks body.length szx - 1)
+    have h4 : nBlocks body.length szx * chunkSize szx =
+        (nBlocks body.length szx - 1) * chunkSize szx + chunkSize szx := by
+      have : nBlocks body.length szx = (nBlocks body.length szx - 1) + 1 := by omega
+      rw [this, Nat.succ_mul]; simp
+    unfold blockEnd
+    omega
+  have htl : tl = body.length := by
+    have := i2 _ (hmem _ (by omega : nBlocks body.length szx - 1 < nBlocks body.length szx))
+    omega
+  cases buf with
+  | none =>
+    simp only at i3
+    have := hmem 0 hnb
+    rw [i3] at this
+    cases this
+  | some b =>
+    simp only at i3
+    obtain ⟨l1, l2⟩ := i3
+    subst htl
+    congr 2
+    apply List.ext_getElem?
+    intro i
+    by_cases hi : i < body.length
+    · have hdm := Nat.div_add_mod i (chunkSize szx)
+      have hml := Nat.mod_lt i hc
+      rw [Nat.mul_comm] at hdm
+      have hk : i / chunkSize szx < nBlocks body.length szx :=
+        (lt_nBlocks_iff body.length szx _).mpr (by omega)
+      have hsl := slice_length body szx (i / chunkSize szx)
+      apply l2 _ (hmem _ hk) i (by omega)
+      unfold blockEnd
+      omega
+    · have h1 : b[i]? = none := by rw [List.getElem?_eq_none_iff]; omega
+      have h2 : body[i]? = none := by rw [List.getElem?_eq_none_iff]; omega
+      rw [h1, h2]
+
+
+theorem echoReserve_eq : echoReserve = 43 := by decide
+
+theorem adlAvail_eq (m t l : Nat) : adlAvail m t l = (m : Int) - t - 43 - ((8 - l : Nat) : Int) := by
+  unfold adlAvail
+  rw [echoReserve_eq]
+  split <;> omega
+
+theorem adlBlkSize_chunk (a : Int) (h16 : 16 ≤ a) (hlt : a < 2 ^ 63) : ((2 ^ (adlBlkSize a + 4) : Nat) : Int) ≤ a := by
+  unfold adlBlkSize
+  have hneg : ¬ a < 0 := by omega
+  simp only [hneg, if_false]
+  obtain ⟨f5, f1, f2⟩ := flsll_chunk a.toNat (by omega) (by omega)
+  generalize hf : flsll a.toNat = f at *
+  have hb : (((f : Int) - 5) % 256).toNat = f - 5 ∨ 256 ≤ f := by omega
+  have hf64 : f ≤ 64 := by
+    apply Nat.le_of_not_lt
+    intro hgt
+    have : 2 ^ 64 ≤ 2 ^ (f - 5 + 4) := Nat.pow_le_pow_right (by decide) (by omega)
+    omega
+  have hb' : (((f : Int) - 5) % 256).toNat = f - 5 := by omega
+  rw [hb']
+  have hmono : ∀ x, x ≤ f - 5 → (2 ^ (x + 4) : Nat) ≤ a.toNat := by
+    intro x hx
+    have : 2 ^ (x + 4) ≤ 2 ^ (f - 5 + 4) := Nat.pow_le_pow_right (by decide) (by omega)
+    omega
+  split
+  · have := hmono 6 (by omega); omega
+  · have := hmono (f - 5) (Nat.le_refl _); omega
+
+theorem blkOptLen_bound (d v w : Nat) : optEncodeSize d (varLen v) ≤ optEncodeSize d (varLen w) + 4 := by
+  have h : ∀ x, varLen x ≤ 4 := by
+    intro x; unfold varLen; split <;> (try split) <;> (try split) <;> (try split) <;> omega
+  have hv := h v
+  have hw := h w
+  unfold optEncodeSize
+  have e1 : ¬ (varLen v ≥ 13) := by omega
+  have e2 : ¬ (varLen w ≥ 13) := by omega
+  simp only [e1, e2, if_false]
+  omega
+
+
+/-- slack the first-stage arithmetic leaves for every follow-up block: 8-byte token, Block option value growing
+to 3 bytes, payload marker, a full chunk -/
+def followUpBound (r : AdlRes) (tokLen : Nat) : Nat := r.hdr + (8 - tokLen) + 3 + 1 + 2 ^ (r.blkSize + 4)
+
+def AdlOk (maxSize tokLen : Nat) (r : AdlRes) : Prop :=
+  (r.payload ≠ 0 → r.used ≤ maxSize) ∧ r.used = r.hdr + (if r.payload = 0 then 0 else 1 + r.payload) ∧
+  (r.lgXmit = true → followUpBound r tokLen ≤ maxSize ∧ r.payload ≤ 2 ^ (r.blkSize + 4))
+
+theorem adlFinish_spec (maxSize tokOpts rem : Nat) (lg : Bool) (b : Nat) (bv : Option Nat) (r : AdlRes)
+    (h : adlFinish maxSize tokOpts rem lg b bv = some r) :
+    r.lgXmit = lg ∧ r.blkSize = b ∧ r.payload = rem ∧ r.hdr = tokOpts ∧
+    r.used = tokOpts + (if rem = 0 then 0 else 1 + rem) ∧ (rem ≠ 0 → r.used ≤ maxSize) := by
+  unfold adlFinish at h
+  by_cases hc : rem ≠ 0 ∧ tokOpts + 1 + rem > maxSize
+  · rw [if_pos hc] at h; cases h
+  · rw [if_neg hc] at h
+    cases h
+    refine ⟨rfl, rfl, rfl, rfl, rfl, ?_⟩
+    intro hr
+    simp only [hr, if_false]
+    omega
+
+theorem adlLgTail_fits (maxSize tokLen base d b2 length extra : Nat) (sb : BlockB) (r : AdlRes)
+    (hms : maxSize < 2 ^ 62) (hsb : sb.chunk ≤ 2 ^ (b2 + 4))
+    (h : adlLgTail maxSize tokLen base d b2 length extra sb = some r) : AdlOk maxSize tokLen r := by
+  unfold adlLgTail at h
+  dsimp only at h
+  generalize hA : adlAvail maxSize (base + optEncodeSize d (varLen (blockValue sb.num sb.m sb.aszx)) + extra) tokLen = A at h
+  rw [adlAvail_eq] at hA
+  by_cases hred : A < ↑(2 ^ (b2 + 4) : Nat)
+  · rw [if_pos hred] at h
+    by_cases h16 : A < 16
+    · rw [if_pos h16] at h; cases h
+    · rw [if_neg h16] at h
+      have hch := adlBlkSize_chunk A (by omega) (by omega)
+      generalize adlBlkSize A = b3 at *
+      have hb := blkOptLen_bound d (blockValue (sb.num * 2 ^ (b2 - b3) % 2 ^ 32) sb.m b3) (blockValue sb.num sb.m sb.aszx)
+      obtain ⟨s1, s2, s3, s4, s5, s6⟩ := adlFinish_spec _ _ _ _ _ _ _ h
+      unfold AdlOk followUpBound
+      rw [s1, s2, s3, s4, s5]
+      refine ⟨by intro hh; have := s6 hh; omega, rfl, fun _ => ⟨by omega, Nat.min_le_left _ _⟩⟩
+  · rw [if_neg hred] at h
+    obtain ⟨s1, s2, s3, s4, s5, s6⟩ := adlFinish_spec _ _ _ _ _ _ _ h
+    unfold AdlOk followUpBound
+    rw [s1, s2, s3, s4, s5]
+    refine ⟨by intro hh; have := s6 hh; omega, rfl, fun _ => ⟨by omega, ?_⟩⟩
+    have := Nat.min_le_left sb.chunk length
+    omega
+
+theorem adlNoBlock_fits (maxSize tokLen base d b2 length : Nat) (blk : Option Nat) (r : AdlRes)
+    (h : adlNoBlock maxSize base d b2 length blk = some r) : AdlOk maxSize tokLen r := by
+  unfold adlNoBlock at h
+  obtain ⟨s1, s2, s3, s4, s5, s6⟩ := adlFinish_spec _ _ _ _ _ _ _ h
+  unfold AdlOk
+  rw [s1, s3, s4, s5]
+  refine ⟨by intro hh; have := s6 hh; omega, rfl, by intro hh; cases hh⟩
+
+theorem setup_chunk_le (maxSize tokOpts num blk total : Nat) (b : BlockB)
+    (h : setupBlockB maxSize tokOpts num blk total = some b) : b.chunk ≤ 2 ^ (blk + 4) := by
+  unfold setupBlockB at h
+  dsimp only at h
+  generalize (maxSize + 2 ^ 64 - tokOpts % 2 ^ 64) % 2 ^ 64 = avail at h
+  by_cases hc : avail < 2 ^ (blk + 4) ∧ (total + 2 ^ 64 - num * 2 ^ (blk + 4) % 2 ^ 32) % 2 ^ 64 ≥ avail
+  · rw [if_pos hc] at h
+    by_cases h16 : avail < 16
+    · rw [if_pos h16] at h; cases h
+    · rw [if_neg h16] at h
+      cases h
+      dsimp only
+      by_cases hlt : avail < 2 ^ 64
+      · obtain ⟨_, f1, _⟩ := flsll_chunk avail (by omega) hlt
+        omega
+      · -- flsll reads the low 64 bits only; then 2^(blk+4) > avail ≥ 2^64 still bounds the chunk
+        have hm : avail % 2 ^ 64 < 2 ^ 64 := Nat.mod_lt _ (by decide)
+        have : flsll avail = flsll (avail % 2 ^ 64) := by unfold flsll; rw [Nat.mod_mod]
+        rw [this]
+        by_cases h16' : 16 ≤ avail % 2 ^ 64
+        · obtain ⟨_, f1, _⟩ := flsll_chunk (avail % 2 ^ 64) h16' hm
+          have := Nat.mod_le avail (2 ^ 64)
+          omega
+        · have hf : flsll (avail % 2 ^ 64) - 5 = 0 := by
+            by_cases hz : avail % 2 ^ 64 = 0
+            · rw [hz]; decide
+            · obtain ⟨_, g1, g2⟩ := flsll_spec (avail % 2 ^ 64) (by omega) hm
+              apply Nat.sub_eq_zero_of_le
+              apply Nat.le_of_not_lt
+              intro hgt
+              have : 2 ^ 5 ≤ 2 ^ (flsll (avail % 2 ^ 64) - 1) := Nat.pow_le_pow_right (by decide) (by omega)
+              omega
+          rw [hf]
+          omega
+  · rw [if_neg hc] at h
+    cases h
+    exact Nat.le_refl _
+
+theorem adlBody_fits (maxSize tokLen base d tokOpts0 b2 length extra : Nat) (blk : Option Nat) (r : AdlRes)
+    (hms : maxSize < 2 ^ 62)
+    (h : adlBody maxSize tokLen base d tokOpts0 b2 length extra blk = some r) : AdlOk maxSize tokLen r := by
+  unfold adlBody at h
+  dsimp only at h
+  by_cases h1 : adlAvail maxSize tokOpts0 tokLen < 16 ∧ ((length : Int) > adlAvail maxSize tokOpts0 tokLen ∨ blk.isSome)
+  · rw [if_pos h1] at h; cases h
+  · rw [if_neg h1] at h
+    by_cases h2 : (blk.isSome ∧ length > 2 ^ (b2 + 4)) ∨ (length : Int) > adlAvail maxSize tokOpts0 tokLen
+    · rw [if_pos h2] at h
+      cases hsb : setupBlockB maxSize (tokOpts0 + extra) 0 b2 length with
+      | none => rw [hsb] at h; cases h
+      | some sb =>
+        rw [hsb] at h
+        exact adlLgTail_fits _ _ _ _ _ _ _ sb r hms (setup_chunk_le _ _ _ _ _ _ hsb) h
+    · rw [if_neg h2] at h
+      exact adlNoBlock_fits _ _ _ _ _ _ _ r h
+
+theorem adl_fits (maxSize tokLen optBytes lastOpt : Nat) (blk : Option Nat) (maxBlk length rtagLen : Nat) (r : AdlRes)
+    (hms : maxSize < 2 ^ 62)
+    (h : addDataLarge maxSize tokLen optBytes lastOpt blk maxBlk length rtagLen = some r) : AdlOk maxSize tokLen r :=
+  adlBody_fits _ _ _ _ _ _ _ _ _ r hms h
+
+
+
 end Coap.Block
